@@ -316,8 +316,11 @@ func closeEnough(a, b float64) bool {
 	if math.IsInf(a, 0) || math.IsInf(b, 0) {
 		return false
 	}
+	// 1e-9 relative; plus 1e-6 absolute because results that are exactly 0 in one summation order
+	// (e.g. stddev of equal values) come out as ~1e-16..1e-8 in another. Sample values are multiples
+	// of 1/32 and rates multiples of 1/30, so a mis-sharded result is off by far more than that.
 	d := math.Abs(a - b)
-	return d <= 1e-9*math.Max(math.Abs(a), math.Abs(b)) || d < 1e-300
+	return d <= 1e-9*math.Max(math.Abs(a), math.Abs(b)) || d <= 1e-6
 }
 
 // diffAnswers returns "" when both answers hold the same series with the same points.
